@@ -19,6 +19,19 @@ def run(ck):
     m = props.tlc_cached(ck, "YNest", "MC_Nest", [], workers=2)
     if m["violated"]:
         raise ToolError("MC_Nest: Bounded violated inside the model")
+    # unbounded safety of the same recursion bound: an inductive invariant discharged by Apalache (bonus; the
+    # property does not depend on it -- TLC covers inputs of up to 10^5 collections)
+    import subprocess, shutil
+    ap = []
+    try:
+        adir = os.path.join(SPEC, "apalache")
+        for args in (["--init=Init", "--inv=IndInv", "--length=0"], ["--init=IndInit", "--inv=IndInv", "--length=1"], ["--init=IndInit", "--inv=Bounded", "--length=0"]):
+            p = subprocess.run(["timeout", "240", "apalache-mc", "check", "--out-dir=" + ck.wd("apalache")] + args + ["YNestInd.tla"], cwd=adir, stdout=subprocess.PIPE, stderr=subprocess.STDOUT, text=True)
+            ap.append("NoError" in p.stdout and p.returncode == 0)
+        shutil.rmtree(ck.wd("apalache"), ignore_errors=True)
+    except Exception as e:
+        ap.append("unavailable: %s" % e)
+    ck.extra["apalache_inductive_invariant"] = {"obligations": ["Init => IndInv", "IndInv /\\ Next => IndInv'", "IndInv => Bounded"], "discharged": ap}
     depths = "1,10,100,254,255,256,257,900,998,999,1000,1001,1002,1100,3000,10000"
     if ck.tier == "thorough":
         depths += ",30000,100000"
